@@ -291,7 +291,12 @@ def more_foveation(ctx):
                 what, text = radial_map_check(gaze, h, w)
             except Exception as e:
                 what, text = 'raises', 'raised %r' % e
-            if what:
+            if what == 'min_at_gaze':
+                # OBSERVATION, not judged by C18: make_radial_map reads gaze[0] as the ROW coordinate while every pooling-size map (and its caller
+                # MetamericLoss) uses gaze[0] as the horizontal one, so the radial weights are centred on the transposed gaze.  C18 states "smallest
+                # at the gaze point" for the pooling-size map, which this is not.
+                ctx.count('radial_map/observation: minimum at the transposed gaze (gaze[0] read as row)')
+            elif what:
                 ctx.violation('make_radial_map([%d, %d], gaze = %s): %s' % (h, w, gaze, text), rec,
                               {'fn': 'make_radial_map', 'what': what, 'gaze_on_diagonal': sym, 'square': h == w})
     # ---------------- equirectangular pooling maps
